@@ -11,7 +11,7 @@ EXPLANATION = (
     'call-site specialised effect analysis), the conflict check dominates step creation and precedes consumption, the check ranges '
     'over all unordered pairs and raises each error under the condition of its own kind for both members of a pair, the LCA-based '
     'region test is guarded against the reflexive case lca(s, s) = parent(s), and no handler between execute_once and the raise '
-    'swallows ExecutionError. Decides that the error cannot be bypassed or partially applied; not its reachability for concrete charts.')
+    'swallows ExecutionError; the statechart queries the classification answers from keep no memoised result across an edit (derived-data rule). Decides that the error cannot be bypassed or partially applied; not its reachability for concrete charts.')
 
 PURE_CACHES = {('PythonEvaluator', '_evaluable_code')}
 FRESH_CTORS = True
@@ -71,9 +71,14 @@ def rules_purity(run):
     w = prog.transitive_writes([ci])
     from .c16 import derived_caches
     memo = set(derived_caches(prog))      # memoised query results of Statechart: governed by C16.7 / C17.5 (invalidation), not state
+    from .c02 import interpreter_memo_findings
+    imemo = set(interpreter_memo_findings(prog)[0])      # memoised values on the interpreter itself: governed by C02.10
     for (c, fld), sites in sorted(w.items()):
         if c == 'Statechart' and fld in memo:
             run.ok(r, sites[0][0].short, 'write to derived cache Statechart.%s (governed by C16.7)' % fld, sites[0][2])
+            continue
+        if c == 'Interpreter' and fld in imemo:
+            run.ok(r, sites[0][0].short, 'write to memo Interpreter.%s (governed by C02.10)' % fld, sites[0][2])
             continue
         for f, kind, node in sites:
             if f.name == '__init__' and f.cls is not None and c == f.cls.name or (f.name == '__init__' and prog.is_subclass(f.cls.name if f.cls else '', c)):
@@ -312,3 +317,6 @@ def check(run):
     # two enabled transitions of one state must end up in one group to be seen as a pair: the grouping helper puts every item in exactly one group per key
     from .c01 import rules_groupby
     run.guard(rules_groupby, run, 'C04.6')
+    # "same region", "stays inside its region" are decided from statechart queries: a memoised query that survives an edit misjudges pairs afterwards
+    from .c16 import rules_caches
+    run.guard(rules_caches, run, 'C04', '.7', ['Interpreter._sort_transitions'])
